@@ -130,9 +130,21 @@ func genEnumValues(r *vh.RNG, n int, bitmask bool, taken map[uint64]bool) []ref.
 		}
 		return fmt.Sprintf("%d", v)
 	}
+	powText := map[uint64]string{}
 	for len(out) < n {
 		var v uint64
-		if bitmask {
+		if !bitmask && r.Chance(1, 8) {
+			// an exact power of a base other than two, up to just below 2**64 (most of them need more than 53 bits)
+			base := []uint64{3, 5, 6, 7, 10, 11, 15}[r.Intn(7)]
+			v = 1
+			e := 0
+			for want := 1 + r.Intn(40); e < want && v <= (1<<64-1)/base; e++ {
+				v *= base
+			}
+			if !taken[v] {
+				powText[v] = fmt.Sprintf("%d**%d", base, e)
+			}
+		} else if bitmask {
 			switch r.Intn(10) {
 			case 0: // sparse high bit
 				v = 1 << uint(r.Intn(64))
@@ -163,6 +175,10 @@ func genEnumValues(r *vh.RNG, n int, bitmask bool, taken map[uint64]bool) []ref.
 			continue
 		}
 		taken[v] = true
+		if t, ok := powText[v]; ok {
+			out = append(out, ref.XEnumEntry{Value: v, ValueText: t})
+			continue
+		}
 		out = append(out, ref.XEnumEntry{Value: v, ValueText: render(v)})
 	}
 	return out
